@@ -160,7 +160,7 @@ def break_doc(rng, d):
     elif k == 9 and comps:                                          # non-string element
         c = rng.choice(comps)
         c[3] = rng.choice(["A:x", "A:1:x", "A:x:1"])
-    elif k in (10, 11) and d["units"]:                              # a target named like a unit
+    elif k == 10 and d["units"] and rng.chance(35):                 # a target named like a unit (known finding: kept rare)
         un = rng.choice(d["units"])[1]
         if d["targets"] and rng.chance(50):
             t = rng.choice(d["targets"])
@@ -168,7 +168,7 @@ def break_doc(rng, d):
                 t[1] = un
         elif un not in [x[1] for x in d["targets"]]:
             d["targets"].append(["t", un, 2, "S:%d" % un, 1, 0])
-    elif k == 12:                                                   # empty document
+    elif k in (11, 12) and rng.chance(40):                          # empty document
         d["units"], d["targets"] = [], []
     return d
 
@@ -201,7 +201,7 @@ def gen_case(rng):
 
 
 def gen(rng, tier):
-    n = 1500 if tier == "quick" else 25000
+    n = 4000 if tier == "quick" else 40000
     for _ in range(n):
         yield gen_case(rng)
 
